@@ -263,8 +263,8 @@ def signed_distance(mesh, points):
 
     # Determine if the projection lies within the closest triangle
     barycentric = points_to_barycentric(mesh.triangles[triangle_id[nonzero]], projection)
-    ontriangle = ~(
-        ((barycentric < -tol.merge) | (barycentric > 1 + tol.merge)).any(axis=1)
+    ontriangle = ((barycentric >= -tol.merge) & (barycentric <= 1 + tol.merge)).all(
+        axis=1
     )
 
     # Where projection does lie in the triangle, compare vector to projection to the
